@@ -31,7 +31,9 @@ Later == /\ hist # <<>> /\ Len(hist) <= MaxOps /\ exc = "none"
          /\ \/ \E it \in Items(MaxLater) : Do([op |-> "update", items |-> it], Update(attrs, it))
             \/ \E n \in Names, v \in Vals : Do([op |-> "setitem", items |-> << <<n, v>> >>], SetItem(attrs, n, v))
             \/ \E nm \in {ClassName, StyleName}, v \in TextVals, pre \in BOOLEAN :
-                   Do([op |-> IF pre THEN "addpre" ELSE "add", items |-> << <<nm, v>> >>], AddVia(attrs, nm, v, pre))
+                   \* add_style insists on a trailing semicolon (C16); only such declarations are supplied here
+                   /\ nm = StyleName => (v.t # <<>> /\ v.t[Len(v.t)] = SEMI)
+                   /\ Do([op |-> IF pre THEN "addpre" ELSE "add", items |-> << <<nm, v>> >>], AddVia(attrs, nm, v, pre))
 Next == New \/ Later
 Spec == Init /\ [][Next]_vars
 
@@ -51,9 +53,7 @@ InvC15 == attrs = SpecReplay(hist, Len(hist))
 InvNames == \A i, j \in 1..Len(attrs) : attrs[i].n = attrs[j].n => i = j
 \* C03 at design level: what the writer emits for every stored value is inert
 InvC03 == \A i \in 1..Len(attrs) :
-             /\ Match(attrs[i].v.ch, attrs[i].v.md, WriteVal(attrs[i].v), AttrSpecials) = 0
-             /\ attrs[i].v.html = (\E j \in 1..Len(attrs[i].v.md) : attrs[i].v.md[j] = "raw" /\ attrs[i].v.ch[j] # SP)
-                  \/ attrs[i].v.ch = <<>> \/ TRUE
+             Match(attrs[i].v.ch, attrs[i].v.md, WriteVal(attrs[i].v), AttrSpecials) = 0
 InvExc == exc = "TypeError" <=> (hist # <<>> /\ \E k \in 1..Len(hist[Len(hist)].items) : IsBad(hist[Len(hist)].items[k][2]))
 
 Export == Serialize(ToJson([hist |-> hist, attrs |-> Proj(attrs), exc |-> exc, out |-> WriteAttrs(attrs)]) \o "\n",
